@@ -564,7 +564,7 @@ fn check_tcp(case: &Case, port: u16, twin: &Server<Cat>, st: &mut Stats) -> Verd
     for item in &case.tcp {
         if let Item::Padded(_, l) = item {
             st.class("tcp-request-padded-to-a-large-length");
-            if (*l as u32 + 5).is_power_of_two() || (0..=9).any(|d| ((*l as u32 + 5 - d).is_power_of_two())) || *l >= 65531 {
+            if (*l as u32 + 5).is_power_of_two() || (0..=9).any(|d| (*l as u32 + 5 - d).is_power_of_two()) || *l >= 65531 {
                 st.class("tcp-request-length-within-4-of-a-power-of-two-or-65535");
             }
         }
@@ -921,6 +921,19 @@ fn case_strategy() -> impl Strategy<Value = Case> {
         })
 }
 
+/// TCP batches of 1-3 requests padded to lengths around powers of two and 65,535, half of them
+/// against the Tokio provider, written in at most three segments without pauses.
+fn large_request_case() -> impl Strategy<Value = Case> {
+    let near = |c: u32| (c.saturating_sub(4)..=(c + 4).min(65535)).prop_map(|v| v as u16);
+    let padded = (req_spec(20, 0.02), prop_oneof![near(512), near(1024), near(2048), near(4096), near(8192), near(16384), near(32768), near(65535)]).prop_map(|(r, l)| Item::Padded(r, l));
+    (
+        prop_oneof![4 => Just(4u8), 1 => Just(0u8), 1 => Just(1u8), 1 => Just(2u8), 1 => Just(3u8)],
+        prop::collection::vec(prop_oneof![4 => padded.boxed(), 1 => req_spec(20, 0.02).prop_map(Item::Req).boxed()], 1..=3),
+        prop::collection::vec(any::<u16>(), 0..3),
+    )
+        .prop_map(|(cfg, tcp, cuts)| Case { cfg, tcp, cuts, pauses: vec![], partial_tail: None, udp_a: vec![], udp_b: vec![] })
+}
+
 pub fn run(ctx: &Ctx, report: &mut Report) {
     report.rule = "TCP batches with at least two pipelined requests of which at least one frame is split across write segments; distinct by (octet stream, segment lengths)".to_string();
     report.assumptions = vec![
@@ -934,6 +947,8 @@ pub fn run(ctx: &Ctx, report: &mut Report) {
     let cases = ctx.tier.pick(1500, 40_000);
     // each shard starts its own providers (thread-local) and shuts them down when it ends
     run_prop(ctx, report, PropSpec { name: "io-providers", cases, max_shrink_iters: 120 }, case_strategy, oracle);
+    // requests of 508 ... 65,535 octets at the lengths where receive buffers are sized or grown
+    run_prop(ctx, report, PropSpec { name: "io-large-requests", cases: ctx.tier.pick(2500, 60_000), max_shrink_iters: 120 }, large_request_case, oracle);
     stop_all_providers();
     // back-pressure: hundreds of pipelined requests with large responses, client not reading
     // for a while (see c30bp.rs); a handful of fixed-size cases per provider
